@@ -145,3 +145,380 @@ def run_loops(ctx) -> None:
     ctx.ob("DRIVER", "MPSBackend._run_from_sequence_data", g.loc(), ok and n >= 1,
            "create_impl → impl.init() → _run(impl) → permute_results" if ok and n >= 1 else
            "_run_from_sequence_data no longer does create_impl → init → _run → permute_results in that order")
+
+
+IMPL = "emu_mps.mps_backend_impl"
+
+
+def create_impl_table(ctx) -> None:
+    """create_impl: DMRG solver → DMRGBackendImpl; otherwise Lindblad operators present → NoisyMPSBackendImpl, absent →
+    MPSBackendImpl (a noisy sequence on the noiseless driver silently drops every jump operator)."""
+    prog = ctx.prog
+    f = prog.func(IMPL + ".create_impl")
+    it = Interp(prog, None, inline=lambda c, r, d: False)
+    rows = {}
+    for p in it.run(f):
+        if p.status != "return":
+            continue
+        v = strip_typed(p.retval)
+        if v[0] != "new":
+            raise AnalysisError(f"DISPATCH-impl: create_impl returns {show(v)[:60]}")
+        noisy = None
+        dmrg = None
+        for c, t in p.cond_log:
+            c0 = strip_typed(c)
+            if c0[0] == "attr" and c0[2] == "lindblad_ops":
+                noisy = t
+            if c0[0] == "cmp" and "solver" in show(c0) and "DMRG" in show(c0):
+                dmrg = t if c0[1] == "==" else (not t)
+        rows.setdefault((dmrg, noisy), set()).add(v[1].split(".")[-1])
+    want = {(True, None): {"DMRGBackendImpl"}, (False, True): {"NoisyMPSBackendImpl"}, (False, False): {"MPSBackendImpl"}}
+    ok = rows == want
+    ctx.ob("DISPATCH-impl", "create_impl table", f.loc(), ok,
+           "solver DMRG → DMRGBackendImpl; TDVP with Lindblad operators → NoisyMPSBackendImpl, without → MPSBackendImpl" if ok else
+           f"create_impl maps (solver is DMRG, Lindblad operators present) to {({k: sorted(v) for k, v in rows.items()})}; "
+           f"expected {({k: sorted(v) for k, v in want.items()})} — noisy sequences run on the wrong driver")
+
+
+def results_helpers(ctx) -> None:
+    """The helpers of permute_results: permute_atom_order stores the gathered order back; _tags_with_base_tag selects
+    exactly the tags `base` and `base_<suffix>`."""
+    prog = ctx.prog
+    f = prog.func(IMPL + ".permute_atom_order")
+    it = Interp(prog, None, inline=lambda c, r, d: False)
+    ok = False
+    for p in it.run(f):
+        st = [e for e in p.events if e.kind == "setattr" and e.name == "atom_order"]
+        if p.status == "return" and len(st) == 1:
+            v = strip_typed(st[0].value)
+            inner = strip_typed(v[2][0]) if v[0] == "call" and v[1] == "tuple" and v[2] else v
+            ok = strip_typed(st[0].target[0]) == ("param", f.qualname, "results") and inner[0] == "call" and \
+                inner[1].endswith("permute_list") and ("param", f.qualname, "perm") in [strip_typed(x) for x in inner[2]] and \
+                "results.atom_order" in show(inner[2][0])
+    ctx.ob("PERM-results", "permute_atom_order stores the gathered order", f.loc(), ok,
+           "results.atom_order ← tuple(permute_list(list(results.atom_order), perm))" if ok else
+           "permute_atom_order no longer stores permute_list(results.atom_order, perm) back into results.atom_order: the "
+           "atom order of the returned results stays in MPS site order")
+    g = prog.func(IMPL + "._tags_with_base_tag")
+    src = util.text(g.node, 2000).replace(" ", "")
+    okt = False
+    for p in it.run(g):
+        if p.status != "return":
+            continue
+        r = strip_typed(p.retval)
+        if r[0] == "comp" and len(r[3]) == 1 and len(r[3][0][1]) == 1:
+            cond = strip_typed(r[3][0][1][0])
+            item = strip_typed(r[2][0])
+            base = ("param", g.qualname, "base_tag")
+            if cond[0] == "bool" and cond[1] == "or" and len(cond[2]) == 2:
+                a, b = (strip_typed(x) for x in cond[2])
+                eq = lambda t: t[0] == "cmp" and t[1] == "==" and {strip_typed(t[2]), strip_typed(t[3])} == {item, base}  # noqa: E731
+                pre = lambda t: t[0] == "mcall" and t[2] == "startswith" and strip_typed(t[1]) == item and len(t[3]) == 1 and \
+                    strip_typed(t[3][0]) == ("bin", "Add", base, ("const", "_"))  # noqa: E731
+                okt = (eq(a) and pre(b)) or (eq(b) and pre(a))
+    ctx.ob("TAGKEY", "_tags_with_base_tag predicate", g.loc(), okt,
+           "a tag belongs to an observable iff it equals the base tag or starts with base_tag + '_'" if okt else
+           "_tags_with_base_tag no longer selects {tag == base_tag or tag.startswith(base_tag + '_')}: suffixed or plain "
+           "per-atom results are skipped when the results are put back into register order")
+
+
+def normalised_copies(ctx) -> None:
+    """The state handed to the observables, and a user's initial state, are divided by their norm: (1/‖ψ‖)·ψ."""
+    from ..algebra import monomials
+    prog = ctx.prog
+    K = prog.cls(IMPL + ".MPSBackendImpl")
+    it = Interp(prog, K, inline=lambda c, r, d: False)
+    f = K.methods["fill_results"]
+    found = False
+    ok = True
+    for p in it.run(f):
+        cb = [e for e in p.events if e.kind == "call" and e.name == "<value>" and len(e.pos) == 5]
+        for e in cb:
+            st = strip_typed(e.pos[2])
+            # the normalised copy `(1 / ‖ψ‖) * ψ` (possibly inside the dark-atom padding): one monomial ψ·‖ψ‖⁻¹
+            good = False
+            cands = [t for t in _walk(st) if t[0] == "bin" and t[1] in ("Mult", "Div") and
+                     any(strip_typed(x) == ("attr", SELF, "state") for x in t[2:4])]
+            for t in cands:
+                mons = monomials(t)
+                if len(mons) == 1:
+                    (m, c), = mons.items()
+                    atoms = sorted(show(x).replace(" ", "") for x in m)
+                    good = good or (abs(c - 1) < 1e-12 and len(atoms) == 2 and "self.state" in atoms and
+                                    any(a.startswith("1/") and "self.state.norm()" in a for a in atoms))
+            if not cands:
+                good = False
+            found = True
+            ok = ok and good
+    ctx.require(found, "OBSDEF-norm: callbacks of fill_results not found")
+    ctx.ob("OBSDEF-norm", "fill_results normalises the state", f.loc(), ok,
+           "observables are evaluated on (1/‖ψ‖)·ψ" if ok else
+           "the state handed to the observables is not self.state divided by its norm: between jumps of a noisy run the "
+           "norm decays, so every reported value is scaled by a power of it")
+
+
+def _walk(t):
+    from ..interp import walk
+    return walk(t)
+
+
+def progress_dispatch(ctx) -> None:
+    """MPSBackendImpl.progress / DMRGBackendImpl.progress: the left-to-right update runs exactly when the sweep direction
+    is LEFT_TO_RIGHT, the right-to-left one otherwise, and every path that did work ends by offering an autosave."""
+    prog = ctx.prog
+    for cq, lr, rl in ((IMPL + ".MPSBackendImpl", "_left_to_right_update_tdvp", "_right_to_left_update_tdvp"),
+                       (IMPL + ".DMRGBackendImpl", "_left_to_right_update", "_right_to_left_update")):
+        K = prog.cls(cq)
+        f = K.methods["progress"]
+        it = Interp(prog, K, inline=lambda c, r, d: False, fork_asserts=False)
+        bad = []
+        n = 0
+        nosave = 0
+        for p in it.run(f):
+            if p.status != "return":
+                continue
+            calls = [e.name.split(".")[-1] for e in p.events if e.kind == "call"]
+            did_lr, did_rl = lr in calls, rl in calls
+            worked = did_lr or did_rl or "_evolve" in calls
+            if worked and (not calls or calls[-1] != "save_simulation"):
+                nosave += 1
+            if not (did_lr or did_rl):
+                continue
+            n += 1
+            direction = None
+            for c, t in p.cond_log:
+                c0 = strip_typed(c)
+                if c0[0] == "cmp" and c0[1] in ("is", "==") and "_swipe_direction" in show(c0):
+                    if "LEFT_TO_RIGHT" in show(c0):
+                        direction = "LR" if t else (direction if direction == "RL" else "not-LR")
+                    elif "RIGHT_TO_LEFT" in show(c0):
+                        direction = "RL" if t else (direction if direction == "LR" else "not-RL")
+            if did_lr and direction != "LR":
+                bad.append(f"{lr} runs on a path where the direction is {direction}")
+            if did_rl and direction not in ("RL", "not-LR"):
+                bad.append(f"{rl} runs on a path where the direction is {direction}")
+        ctx.require(n >= 2, f"TDVP-dispatch: sweep updates of {K.name}.progress not found")
+        ctx.ob("TDVP-dispatch", f"{K.name}.progress direction", f.loc(), not bad,
+               f"{lr} ⇔ LEFT_TO_RIGHT, {rl} ⇔ RIGHT_TO_LEFT" if not bad else
+               f"{K.name}.progress: {bad[0]} — the sweep moves against the direction its bookkeeping records")
+        ctx.ob("SAVE-offered", f"{K.name}.progress ends with save_simulation", f.loc(), nosave == 0,
+               "every progress() that evolved the state ends by calling save_simulation()" if nosave == 0 else
+               f"{nosave} path(s) of {K.name}.progress evolve the state without calling save_simulation(): no autosave is "
+               f"written and a crashed run cannot be resumed")
+
+
+def init_sequence(ctx) -> None:
+    """MPSBackendImpl.init: dark qubits are removed before the initial state and the Hamiltonian are built."""
+    prog = ctx.prog
+    K = prog.cls(IMPL + ".MPSBackendImpl")
+    f = K.methods["init"]
+    it = Interp(prog, K, inline=lambda c, r, d: False)
+    ok = True
+    n = 0
+    for p in it.run(f):
+        if p.status != "return":
+            continue
+        n += 1
+        calls = [e.name.split(".")[-1] for e in p.events if e.kind == "call" and strip_typed(e.recv) == SELF]
+        need = ["init_dark_qubits", "init_initial_state", "init_noiseless_hamiltonian", "init_baths"]
+        pos = [calls.index(x) if x in calls else -1 for x in need]
+        ok = ok and all(x >= 0 for x in pos) and pos == sorted(pos)
+    ctx.ob("DARK-mps", "init order", f.loc(), ok and n >= 1,
+           "init(): init_dark_qubits → init_initial_state → init_noiseless_hamiltonian → … → init_baths" if ok and n >= 1 else
+           "MPSBackendImpl.init no longer removes the badly prepared atoms before building state and Hamiltonian "
+           "(or builds the baths before them)")
+
+
+def jump_gap(ctx) -> None:
+    """NoisyMPSBackendImpl: norm_gap_before_jump is always ‖ψ‖² − jump_threshold (the quantity whose sign change locates
+    the jump), and the threshold is drawn uniformly below the current squared norm."""
+    from ..algebra import monomials
+    from ..interp import field_defs
+    prog = ctx.prog
+    K = prog.cls(IMPL + ".NoisyMPSBackendImpl")
+    fd = field_defs(prog, K)
+    defs = [(v, ev) for v, ev in fd.get("norm_gap_before_jump", []) if ev is not None]
+    ctx.require(len(defs) >= 3, f"JUMP-gap: {len(defs)} stores to norm_gap_before_jump, 3 confirmed by hand")
+    thr_defs = [strip_typed(v) for v, ev in fd.get("jump_threshold", []) if ev is not None]
+    for v, ev in defs:
+        mons = monomials(v)
+        sq = [c for m, c in mons.items() if len(m) == 2 and all("state.norm()" in show(x) for x in m) and show(m[0]) == show(m[1])]
+        th = [c for m, c in mons.items() if len(m) == 1 and (strip_typed(m[0]) == ("attr", SELF, "jump_threshold") or strip_typed(m[0]) in thr_defs)]
+        ok = len(mons) == 2 and sq == [1] and th == [-1]
+        ctx.ob("JUMP-gap", f"{ev.func.name}|norm gap", ev.loc(), ok,
+               "norm_gap_before_jump = ‖ψ‖² − jump_threshold" if ok else
+               f"{ev.func.name} stores norm_gap_before_jump = {show(v)[:80]}, not ‖ψ‖² − jump_threshold: the root finder "
+               f"then locates the jump at a time where the squared norm did not cross the threshold", entry=ev.func.qualname)
+    okt = len(thr_defs) >= 1 and all(t[0] == "call" and t[1].endswith("uniform") and len(t[2]) == 2 and
+                                     strip_typed(t[2][0]) in (("const", 0.0), ("const", 0)) and strip_typed(t[2][1])[0] == "param"
+                                     for t in thr_defs)
+    ctx.ob("JUMP-gap", "threshold distribution", K.methods["set_jump_threshold"].loc(), okt,
+           "jump_threshold ~ uniform(0, bound)" if okt else f"jump_threshold is drawn as {[show(t)[:40] for t in thr_defs]}")
+
+
+def autosave_content(ctx) -> None:
+    """save_simulation: throttled by autosave_dt (returns early only when the last save is more recent than that), and
+    what is written to the temporary file is pickle.dump(self, <that file>)."""
+    prog = ctx.prog
+    K = prog.cls(IMPL + ".MPSBackendImpl")
+    f = K.methods["save_simulation"]
+    it = Interp(prog, K, inline=lambda c, r, d: False)
+    dumped = True
+    nsave = 0
+    early = []
+    for p in it.run(f):
+        if p.status != "return":
+            continue
+        opens = [e for e in p.events if e.kind == "call" and e.name == "open"]
+        if not opens:
+            early.append(p)
+            continue
+        nsave += 1
+        handle = None
+        for e in p.events:
+            if e.kind == "with_enter" and opens and strip_typed(e.value) == strip_typed(opens[0].result):
+                handle = ("ctx", e.value)
+        dumps = [e for e in p.events if e.kind == "call" and e.name == "pickle.dump" and len(e.pos) >= 2]
+        good = len(dumps) == 1 and strip_typed(dumps[0].pos[0]) == SELF and \
+            (strip_typed(dumps[0].pos[1]) == strip_typed(handle) if handle else False) and \
+            p.events.index(opens[0]) < p.events.index(dumps[0])
+        repl = [e for e in p.events if e.kind == "call" and e.name in ("os.replace", "os.rename")]
+        good = good and bool(repl) and p.events.index(dumps[0]) < p.events.index(repl[0])
+        dumped = dumped and good
+    ctx.require(nsave >= 1, "SAVE-content: no saving path in save_simulation")
+    ctx.ob("SAVE-content", "the snapshot is pickled into the new file", f.loc(), dumped,
+           "pickle.dump(self, handle of the .new file) happens before the file is swapped in" if dumped else
+           "save_simulation swaps in a file into which the driver was not pickled: the autosave cannot be resumed")
+    # throttle: the early return is taken exactly when last_save_time > now − autosave_dt
+    okth = len(early) >= 1
+    for p in early:
+        cond = [(strip_typed(c), t) for c, t in p.cond_log]
+        hit = False
+        for c, t in cond:
+            o = None
+            from ..interp import cmp_with_left
+            o = cmp_with_left(c, lambda x: x == ("attr", SELF, "last_save_time"))
+            if o is not None and o[0] in (">", ">=") and t is True and "autosave_dt" in show(o[2]) and "time()" in show(o[2]):
+                from ..algebra import monomials
+                mons = monomials(o[2])
+                hit = any(len(m) == 1 and "autosave_dt" in show(m[0]) and abs(c_ + 1) < 1e-12 for m, c_ in mons.items()) and \
+                    any(len(m) == 1 and "time()" in show(m[0]) and abs(c_ - 1) < 1e-12 for m, c_ in mons.items())
+        okth = okth and hit
+    ctx.ob("SAVE-content", "autosave throttle", f.loc(), okth,
+           "no snapshot is written only while the last one is younger than autosave_dt" if okth else
+           "the early return of save_simulation is not `last_save_time > time.time() − config.autosave_dt`: autosaves are "
+           "skipped when they are due")
+
+
+def evaluation_time_filter(ctx) -> None:
+    """_is_evaluation_time(observable, t): (the observable has its own times and t is one of them) or (t is a default
+    evaluation time) — in both backends."""
+    prog = ctx.prog
+    for cq in (IMPL + ".MPSBackendImpl", "emu_sv.sv_backend_impl.SVBackendImpl"):
+        K = prog.cls(cq)
+        f = K.methods["_is_evaluation_time"]
+        it = Interp(prog, K, inline=lambda c, r, d: False)
+        ok = False
+        got = "?"
+        for p in it.run(f):
+            if p.status != "return":
+                continue
+            r = strip_typed(p.retval)
+            got = show(r)[:100]
+            if r[0] == "bool" and r[1] == "or" and len(r[2]) == 2:
+                a, b = (strip_typed(x) for x in r[2])
+                def own(t):
+                    if not (t[0] == "bool" and t[1] == "and" and len(t[2]) == 2):
+                        return False
+                    x, y = (strip_typed(z) for z in t[2])
+                    notnone = lambda u: u[0] == "cmp" and u[1] in ("isnot", "!=") and "evaluation_times" in show(u) and strip_typed(u[3]) == ("const", None)  # noqa: E731
+                    isin = lambda u: u[0] == "mcall" and u[2].endswith("is_time_in_evaluation_times")  # noqa: E731
+                    return (notnone(x) and isin(y)) or (notnone(y) and isin(x))
+                dflt = lambda t: t[0] == "mcall" and t[2].endswith("is_evaluation_time")  # noqa: E731
+                ok = (own(a) and dflt(b)) or (own(b) and dflt(a))
+        ctx.ob("ONCE-filter", f"{K.name}._is_evaluation_time", f.loc(), ok,
+               "due ⇔ (own evaluation times given and t among them) or (t is a default evaluation time)" if ok else
+               f"{K.name}._is_evaluation_time returns {got}: observables are skipped at (or recorded outside) their "
+               f"evaluation times")
+
+
+def sweep_boundaries(ctx) -> None:
+    """The sweep updates move on while the pair (i, i+1) is not the last one in the direction of travel and turn round
+    exactly at the end of the chain: left-to-right moves ⇔ i < N−2, right-to-left moves ⇔ i > 0; the turn stores the new
+    direction.  (A move taken at the boundary indexes factor −1 or N, which Python accepts for −1.)"""
+    from ..algebra import monomials
+    from ..interp import cmp_with_left
+    prog = ctx.prog
+    table = [(IMPL + ".MPSBackendImpl", "_left_to_right_update_tdvp", "LR", ("attr", SELF, "_sweep_index")),
+             (IMPL + ".MPSBackendImpl", "_right_to_left_update_tdvp", "RL", ("attr", SELF, "_sweep_index")),
+             (IMPL + ".DMRGBackendImpl", "_left_to_right_update", "LR", None),
+             (IMPL + ".DMRGBackendImpl", "_right_to_left_update", "RL", None)]
+    for cq, mname, direction, idx in table:
+        K = prog.cls(cq)
+        f = K.methods[mname]
+        index = idx if idx is not None else ("param", f.qualname, f.params[1])
+        it = Interp(prog, K, inline=lambda c, r, d: False)
+        bad = []
+        n = 0
+        end = {("self.qubit_count",): 1, (): -2} if direction == "LR" else {}
+        for p in it.run(f):
+            if p.status != "return":
+                continue
+            n += 1
+            moved = [e for e in p.events if e.kind == "setattr" and e.name == "_sweep_index" and e.target[0] == SELF]
+            turned = any(e.kind == "setattr" and e.name == "_swipe_direction" for e in p.events)
+            may_move = None
+            at_end = None
+            for c, t in p.cond_log:
+                o = cmp_with_left(c, lambda x: strip_typed(x) == index)
+                if o is not None:
+                    op, _, rhs = o
+                    mons = {tuple(show(x) for x in m): cc for m, cc in monomials(rhs).items() if abs(cc) > 1e-12}
+                    if (direction == "LR" and op == "<" and mons == end) or (direction == "RL" and op == ">" and mons == end):
+                        may_move = t
+                o2 = cmp_with_left(c, lambda x: "_sweep_index" in show(x))
+                if o2 is not None and o2[0] == "==":
+                    mons = {tuple(show(x) for x in m): cc for m, cc in monomials(o2[2]).items() if abs(cc) > 1e-12}
+                    if mons == end:
+                        at_end = t
+            if moved and may_move is not True:
+                bad.append(f"the index is changed on a path where `{'i < N − 2' if direction == 'LR' else 'i > 0'}` is {may_move}")
+            if may_move is True and not moved:
+                bad.append("a path that may move on leaves the sweep index unchanged")
+            if moved:
+                step = monomials(("bin", "Sub", moved[-1].value, ("attr", SELF, "_sweep_index")))
+                want = 1 if direction == "LR" else -1
+                if {k: v for k, v in step.items() if abs(v) > 1e-12} != {(): want}:
+                    bad.append(f"the sweep index is set to {show(moved[-1].value)[:40]}")
+            if turned and at_end is not True and not (at_end is None and may_move is False):
+                bad.append(f"the direction is reversed on a path where the index was not established to be {'N − 2' if direction == 'LR' else '0'}")
+            if at_end is True and not turned:
+                bad.append("the end of the chain is reached without reversing the direction")
+        ctx.require(n >= 2, f"TDVP-boundary: paths of {K.name}.{mname} not found")
+        bound = "i < N − 2" if direction == "LR" else "i > 0"
+        ctx.ob("TDVP-boundary", f"{K.name}.{mname}", f.loc(), not bad,
+               f"moves on (index {'+' if direction == 'LR' else '−'} 1) ⇔ {bound}; reverses the direction ⇔ the index is at the end" if not bad else
+               f"{K.name}.{mname}: {bad[0]}: the sweep turns round at the wrong site or walks off the chain")
+
+
+def dmrg_restart(ctx) -> None:
+    """DMRG sweep_complete, not converged and sweeps left: the energy of this sweep becomes the reference of the next."""
+    prog = ctx.prog
+    K = prog.cls(IMPL + ".DMRGBackendImpl")
+    f = K.methods["sweep_complete"]
+    it = Interp(prog, K, inline=lambda c, r, d: False)
+    n = 0
+    ok = True
+    for p in it.run(f):
+        if p.status != "return":
+            continue
+        conv = [t for c, t in p.cond_log if strip_typed(c)[0] == "mcall" and strip_typed(c)[2].endswith("convergence_check")]
+        if not conv or conv[-1] is not False:
+            continue
+        n += 1
+        st = [e for e in p.events if e.kind == "setattr" and e.name == "previous_energy" and e.target[0] == SELF]
+        ok = ok and len(st) == 1 and strip_typed(st[0].value) == ("attr", SELF, "current_energy")
+    ctx.ob("CONV-gate", "DMRG restart keeps the reference energy", f.loc(), ok and n >= 1,
+           "an unconverged sweep stores previous_energy ← current_energy before the next sweep" if ok and n >= 1 else
+           "an unconverged DMRG sweep does not store its energy as previous_energy: convergence is judged against a stale "
+           "(or missing) reference")
